@@ -28,6 +28,11 @@ def scenarios(ctx, thorough):
             scs.append(S.mk(sid, "answer-before-send-returns", "dispatch",
                             [S.call("c1", 11, kind), {"a": "Answer", "tags": [11], "gzip": [gz], "n": 400}, {"a": "Release", "c": "c1"},
                              {"a": "Drain"}, {"a": "Settle"}], gates=["send.written"]))
+            # ... and has been read and dispatched by the loop before the caller leaves the send section
+            sid += 1
+            scs.append(S.mk(sid, "answer-dispatched-before-send-returns", "dispatch",
+                            [S.call("c1", 11, kind), {"a": "Answer", "tags": [11], "gzip": [gz], "n": 400}, {"a": "Sleep", "n": 250},
+                             {"a": "Release", "c": "c1"}, {"a": "Drain"}, {"a": "Settle"}], gates=["send.written"]))
     # every result kind alone and in a container with gzip variants
     sid += 1
     scs.append(S.mk(sid, "all-kinds-one-container", "dispatch",
